@@ -22,19 +22,6 @@ theorem C10_reject_iff (ts : List Tok) : parseFm ts = none ↔ ¬ ∃ f, D 2 ts 
     | none => rfl
     | some f => exact absurd ⟨f, parseFm_sound ts f hp⟩ h
 
-/-- a printer with minimal parentheses for each precedence level -/
-def pp : Nat → Fm → List Tok
-  | _, .top => [.top]
-  | _, .bot => [.bot]
-  | _, .atom n => [.id n]
-  | _, .neg a => .not :: pp 0 a
-  | lvl, .and a b =>
-    if lvl = 0 then .lpar :: (pp 1 a ++ .comma :: pp 0 b) ++ [.rpar]
-    else pp 1 a ++ .comma :: pp 0 b
-  | lvl, .or a b =>
-    if lvl ≤ 1 then .lpar :: (pp 2 a ++ .semi :: pp 1 b) ++ [.rpar]
-    else pp 2 a ++ .semi :: pp 1 b
-
 theorem D_mono : ∀ {lvl ts f}, D 0 ts f → lvl ≤ 2 → D lvl ts f := by
   intro lvl ts f h hl
   match lvl, hl with
